@@ -1,11 +1,12 @@
 ------------------------------ MODULE MC_Harbor ------------------------------
-(* Bounded model of the vault handlers over VaultSpec's action operators.                                    *)
+(* Bounded model of the vault handlers over VaultSpec's action operators, plus the first-generation seizure   *)
+(* (MsgLiquidateVault, DutchV1.tla's V1Liquidate) so that vaults awaiting V1 auction settlement are reachable.   *)
 (*   Init  = the projection of the REAL fixture's root state (read from RootFile, written by `vh harbor`),   *)
 (*   Next  = every action instance of the finite set Acts applied with VaultAct; price moves as environment. *)
 (* TLC checks the C01/C02/C03 formulas of Harbor.tla on every reachable model state up to Depth; the same    *)
 (* action instances are explored breadth-first on the real code by the harness (CacheContext branches) and   *)
 (* Trace_Harbor's Conf_Vault shows every real edge is the model's edge - so the model graph IS the real graph.*)
-EXTENDS Harbor, VaultSpec, TLC, Json
+EXTENDS Harbor, VaultSpec, DutchV1, TLC, Json
 CONSTANTS RootFile, Depth
 
 Root == ndJsonDeserialize(RootFile)[1]
@@ -21,12 +22,13 @@ Acts == { A("Create", "u1", P1, 0, 30, 40), A("Create", "u1", P1, 0, 30, 41), A(
           A("Draw", "u1", P1, 1, 4, 0), A("Draw", "u2", P1, 2, 10, 0), A("Repay", "u1", P1, 1, 10, 0),
           A("Repay", "u2", P1, 2, 5, 0), A("Close", "u1", P1, 1, 0, 0), A("Close", "u2", P1, 2, 0, 0),
           A("Draw", "u2", P1, 1, 1, 0), A("DepositDraw", "u1", P1, 1, 6, 0),
-          A("SCreate", "u2", P3, 0, 20, 0), A("SDeposit", "u1", P3, 1, 30, 0), A("SWithdraw", "u2", P3, 1, 2, 0) }
+          A("SCreate", "u2", P3, 0, 20, 0), A("SDeposit", "u1", P3, 1, 30, 0), A("SWithdraw", "u2", P3, 1, 2, 0),
+          A("V1Liquidate", "u2", P1, 1, 0, 0), A("V1Liquidate", "u1", P1, 2, 0, 0) }
 PriceMoves == { <<"ucm", 1, TRUE>>, <<"ucm", 2, TRUE>>, <<"ucm", 2, FALSE>> }
 
 Init == st = Root.st.s /\ lastOk = TRUE /\ lastAct = "Init"
 
-DoAct(act) == LET r == VaultAct(C, st, act.a, act.args) IN
+DoAct(act) == LET r == IF act.a = "V1Liquidate" THEN V1Liquidate(C, st, act.args) ELSE VaultAct(C, st, act.a, act.args) IN
               /\ st' = r.s /\ lastOk' = r.ok /\ lastAct' = act.a
 DoPrice(m) == /\ st' = [st EXCEPT !.prices = [k \in 1..Len(@) |-> IF @[k].denom = m[1] THEN [@[k] EXCEPT !.twa = m[2], !.active = m[3]] ELSE @[k]]]
               /\ lastOk' = TRUE /\ lastAct' = "Price"
@@ -38,10 +40,14 @@ StView == st
 (* ---- the properties on the model (state form; no liquidation in this model, so supply is exactly backed) ---- *)
 M_Custody == \A d \in {"ucm", "uat", "uus"} : st.bal.vaultV1[d] = RecordedColl(C, st, d)
 M_Count   == st.vcount = Len(st.vaults)
-M_Totals  == \A p \in Range(C.prods) : /\ TotOf(st, p.id).coll = OpenColl(st, p.id)
-                                        /\ TotOf(st, p.id).minted = OpenMinted(st, p.id)
+M_Totals  == \A p \in Range(C.prods) : /\ TotOf(st, p.id).coll = OpenColl(st, p.id) + V1AwaitingColl(st, p.id)
+                                        /\ TotOf(st, p.id).minted = OpenMinted(st, p.id) + V1AwaitingMinted(st, p.id)
                                         /\ Range(TotOf(st, p.id).ids) = OpenIds(st, p.id)
-M_Backed  == st.supply["ust"] - st.fixtureMint = AllPrincipal(st)
+M_Backed  == st.supply["ust"] - st.fixtureMint = AllPrincipal(st) + V1AwaitingPrincipal(st)
+(* every vault awaiting V1 settlement has exactly one auction holding exactly its collateral; V1 auction custody is what the auctions hold *)
+M_V1Held  == /\ \A l \in Range(st.lockedV1) : Cardinality({a \in Range(st.auctionsV1) : a.lv = l.id /\ a.collLeft = l.in}) = 1
+             /\ \A d \in {"ucm", "uat", "uus"} : st.bal.auctionV1[d] = V1AuctionColl(st, d)
+(* action property in state form: the last step seized something only if the model's guard said so - checked on real steps by C09_OnlyUnsafe *)
 M_Floor   == \A v \in Range(st.vaults) : v.out >= ProdOf(C, v.prod).floor
 M_Ceiling == \A p \in Range(C.prods) : OpenMinted(st, p.id) <= p.ceiling
 M_NonNeg  == /\ \A u \in DOMAIN st.ubal : \A d \in DOMAIN st.ubal[u] : st.ubal[u][d] >= 0
